@@ -428,57 +428,7 @@ func checkC03Pairing(c *Ctx, et interface{}) {
 			}
 		}
 	}
-	// no append onto a truncated re-slice of a list the function did not allocate itself:
-	// that overwrites entries of the published list in place
-	nApp := 0
-	for _, f := range p.Funcs {
-		if !inPkg(p, f, "") {
-			continue
-		}
-		for _, ci := range Calls(f) {
-			cm := ci.Common()
-			if b, isB := cm.Value.(*ssa.Builtin); !isB || b.Name() != "append" {
-				continue
-			}
-			nApp++
-			// follow the destination back through phis to its origins
-			var origins []ssa.Value
-			seen := map[ssa.Value]bool{}
-			var walk func(v ssa.Value)
-			walk = func(v ssa.Value) {
-				if seen[v] {
-					return
-				}
-				seen[v] = true
-				switch x := v.(type) {
-				case *ssa.Phi:
-					for _, e := range x.Edges {
-						walk(e)
-					}
-				case *ssa.Call:
-					if b2, isB2 := x.Call.Value.(*ssa.Builtin); isB2 && b2.Name() == "append" {
-						walk(x.Call.Args[0])
-						return
-					}
-					origins = append(origins, v)
-				default:
-					origins = append(origins, v)
-				}
-			}
-			walk(cm.Args[0])
-			for _, o := range origins {
-				sl, isSl := o.(*ssa.Slice)
-				if !isSl || sl.High == nil || rawLocal(sl.X) {
-					continue
-				}
-				t := typeShort(sl.Type())
-				if t == "[]*TablePlayerState" || t == "[]int" {
-					c.Bad("R6", "in-place-filter:"+FuncName(f), p.InstrPos(ci), "entries are appended onto a truncated re-slice ("+p.Sym(sl).String()+") of a list this function did not allocate: the published player list / index list is overwritten in place while other code still reads it by the old indexes")
-				}
-			}
-		}
-	}
-	c.Count("appends_checked_for_in_place_overwrite", nApp)
+	checkInPlaceFilter(c, "R6")
 
 	// R4 add path
 	for _, f := range adders {
@@ -824,4 +774,60 @@ func unfree(s *Sym) *Sym {
 		s = s.Args[0].Strip()
 	}
 	return s
+}
+
+// checkInPlaceFilter: shared by C03.R6, C01.R6 and C02.R4.
+func checkInPlaceFilter(c *Ctx, rule string) {
+	p := c.P
+	// no append onto a truncated re-slice of a list the function did not allocate itself:
+	// that overwrites entries of the published list in place
+	nApp := 0
+	for _, f := range p.Funcs {
+		if !inPkg(p, f, "") {
+			continue
+		}
+		for _, ci := range Calls(f) {
+			cm := ci.Common()
+			if b, isB := cm.Value.(*ssa.Builtin); !isB || b.Name() != "append" {
+				continue
+			}
+			nApp++
+			// follow the destination back through phis to its origins
+			var origins []ssa.Value
+			seen := map[ssa.Value]bool{}
+			var walk func(v ssa.Value)
+			walk = func(v ssa.Value) {
+				if seen[v] {
+					return
+				}
+				seen[v] = true
+				switch x := v.(type) {
+				case *ssa.Phi:
+					for _, e := range x.Edges {
+						walk(e)
+					}
+				case *ssa.Call:
+					if b2, isB2 := x.Call.Value.(*ssa.Builtin); isB2 && b2.Name() == "append" {
+						walk(x.Call.Args[0])
+						return
+					}
+					origins = append(origins, v)
+				default:
+					origins = append(origins, v)
+				}
+			}
+			walk(cm.Args[0])
+			for _, o := range origins {
+				sl, isSl := o.(*ssa.Slice)
+				if !isSl || sl.High == nil || rawLocal(sl.X) {
+					continue
+				}
+				t := typeShort(sl.Type())
+				if t == "[]*TablePlayerState" || t == "[]int" {
+					c.Bad(rule, "in-place-filter:"+FuncName(f), p.InstrPos(ci), "entries are appended onto a truncated re-slice ("+p.Sym(sl).String()+") of a list this function did not allocate: the published player list / index list is overwritten in place while other code still reads it by the old indexes")
+				}
+			}
+		}
+	}
+	c.Count("appends_checked_for_in_place_overwrite", nApp)
 }
